@@ -388,6 +388,8 @@ impl<'a, 'b> Sem<'a, 'b> {
                 let l = self.c.choose(&[
                     "{ a: x }", "{ a: 1 }", "{ default: () => y, named: () => 1 }", "{ a: { b: x } }",
                     "{ undefined }", "{ [s1]: 1 }", "{ ...p1 }", "{}",
+                    // a hand-written `_` that is not the last entry
+                    "{ _: 1, default: () => y, named: () => 1 }",
                 ]);
                 Ex::src(l, Cat::ObjLit)
             }
@@ -525,6 +527,8 @@ impl<'a, 'b> Sem<'a, 'b> {
                 "a&b", "say \"hi\"", "it's \"x\" & y", "&amp;literal", "<tag> {brace}",
                 // JSX strings have no escapes: backslashes are plain characters
                 "C:\\users\\x", "q\\1", "\\d+\\x", "end\\", "\\u{zz}",
+                // a carriage return as the very last character
+                "end\r", "\r",
             ])
             .to_string()
     }
@@ -800,7 +804,10 @@ impl<'a, 'b> Sem<'a, 'b> {
                     let e = if self.c.bool() {
                         Ex::src("sl1", Cat::IdentBound)
                     } else {
-                        Ex::src("{ extra: () => s1, more: f1 }", Cat::ObjLit)
+                        Ex::src(
+                            self.c.choose(&["{ extra: () => s1, more: f1 }", "{ extra: () => s1, _: 1, more: f1 }"]),
+                            Cat::ObjLit,
+                        )
                     };
                     self.label("v-slots");
                     out.push(Attr::VSlots(e));
